@@ -119,9 +119,7 @@ Theorem decimal_op_spec op l_s r_s p1 s1 p2 s2 l r :
   1 <= fst (spec_result_type m m op p1 s1 p2 s2) ->
   wf l -> wf r -> (l_s = true -> arr_len l = 1%nat) -> (r_s = true -> arr_len r = 1%nat) ->
   vals_in_range H true l -> vals_in_range H true r ->
-  (op = DRem ->
-     in_range true H (10 ^ (Z.max s1 s2 - s1)) = true /\ in_range true H (10 ^ (Z.max s1 s2 - s2)) = true /\
-     Forall (fun x => x * 10 ^ (Z.max s1 s2 - s1) <> - H) (a_vals l)) ->
+  (op = DRem -> Forall (fun x => x * 10 ^ (Z.max s1 s2 - s1) <> - H) (a_vals l)) ->
   dcanon (decimal_op H m m op l_s r_s p1 s1 p2 s2 l r)
   = spec_decimal H m m op l_s r_s p1 s1 p2 s2 (denote l) (denote r).
 Proof.
@@ -231,7 +229,7 @@ Proof.
       symmetry. apply andb_true_iff. split; [apply Z.leb_le; unfold rp in *; lia|].
       apply negb_true_iff. apply andb_false_iff. left. apply Z.ltb_ge. lia.
   - (* rem *)
-    destruct (Hrem eq_refl) as [I1 [I2 Nmin]].
+    pose proof (Hrem eq_refl) as Nmin.
     set (rs := Z.max s1 s2) in *. set (d := Z.min (p1 - s1) (p2 - s2)) in *.
     assert (Ed : 1 <= rs + d <= 200) by (unfold rs, d in *; lia).
     assert (Erp : Z.min (as_u8 (sat_i8 (rs + d))) m = Z.min (d + rs) m).
@@ -239,8 +237,9 @@ Proof.
       set (y := Z.min 127 (rs + d)). assert (Hy : 1 <= y <= 127) by (unfold y; lia).
       rewrite Z.mod_small by lia. unfold y. lia. }
     rewrite Erp. replace (m <? rs) with false by (symmetry; apply Z.ltb_ge; unfold rs; lia).
-    rewrite I1, I2. cbn [negb andb].
-    unfold pow10_wrapping. rewrite (wrap_small H true _ I1), (wrap_small H true _ I2).
+    unfold pow10_checked.
+    destruct (in_range true H (10 ^ (rs - s1))) eqn:I1; cbn [negb andb]; [|reflexivity].
+    destruct (in_range true H (10 ^ (rs - s2))) eqn:I2; cbn [negb andb]; [|reflexivity].
     rewrite finish_ok by (unfold rs, d in *; lia). rewrite (Rows DRem) by (auto; discriminate).
     destruct (spec_binary_kernel _ l_s r_s (denote l) (denote r)); [|reflexivity].
     replace ((1 <=? Z.min (d + rs) m) && negb ((0 <? rs) && (Z.min (d + rs) m <? rs))) with true; [reflexivity|].
